@@ -164,6 +164,26 @@ func zipfuzzExec(c *Ctx, op string) {
 		}
 		zw.Close()
 		b = zb.Bytes()
+	case "types":
+		// a structurally valid zip whose first entry has one of the root spellings and one of the unix file types
+		// (device, fifo, socket, …), optionally followed by a child
+		rootName := []string{".", "./", "", "x", "d/"}[arg(1)%5]
+		mode := []os.FileMode{os.ModeDevice | os.ModeCharDevice | 0666, os.ModeDevice | 0660, os.ModeNamedPipe | 0644, os.ModeSocket | 0755,
+			os.ModeDir | 0755, 0644, os.ModeSymlink | 0777, os.ModeIrregular | 0644}[arg(2)%8]
+		var zb bytes.Buffer
+		zw := zip.NewWriter(&zb)
+		fh := &zip.FileHeader{Name: rootName, Method: zip.Store}
+		fh.SetMode(mode)
+		if w, e := zw.CreateRaw(fh); e == nil {
+			_ = w
+		}
+		if arg(3)%3 > 0 {
+			ch := &zip.FileHeader{Name: []string{"", "a", "d/x"}[arg(3)%3], Method: zip.Store}
+			ch.SetMode(0644)
+			zw.CreateRaw(ch)
+		}
+		zw.Close()
+		b = zb.Bytes()
 	case "garbage":
 		b = []byte("PK\x03\x04 this is not a zip, not really" + strings.Repeat("x", arg(1)%200))
 	case "tarbytes":
@@ -183,6 +203,18 @@ func zipfuzzExec(c *Ctx, op string) {
 		res = "err " + catOf(serr)
 		if !strings.HasPrefix(catOf(serr), "rio-") {
 			c.PropFail("uncategorized", "zip scan returned a non-rio error category: "+catOf(serr), op)
+		}
+	}
+	// the same under a filter that ejects device nodes
+	{
+		ufi := api.MustParseFilesetUnpackFilter("uid=follow,gid=follow,mtime=follow,sticky=follow,setid=follow,dev=ignore")
+		_, ierr, ipan := safeCall(func() (api.WareID, error) {
+			return ziptrans.Scan(ctx, "zip", ufi, rio.Placement_Direct, api.WarehouseLocation("file://"+ware), rio.Monitor{})
+		})
+		if ipan != "" {
+			c.PropFail("panic-zip", "zip scan with dev=ignore panicked: "+ipan, op)
+		} else if ierr != nil && !strings.HasPrefix(catOf(ierr), "rio-") {
+			c.PropFail("uncategorized", "zip scan with dev=ignore returned a non-rio error category: "+catOf(ierr), op)
 		}
 	}
 	// the real unpack too (direct), into a scratch target
@@ -401,6 +433,15 @@ func zipfuzzEngine(c *Ctx) {
 			ex := ownerExtras()
 			for i := 0; i < 6; i++ {
 				zipfuzzExec(c, fmt.Sprintf("zipfuzz extra:%s %s", hx(string(ex[c.Intn(len(ex))])), tok))
+			}
+		}
+		if k == 0 {
+			for r := 0; r < 5; r++ {
+				for t := 0; t < 8; t++ {
+					for ch := 0; ch < 3; ch++ {
+						zipfuzzExec(c, fmt.Sprintf("zipfuzz types:%d:%d:%d %s", r, t, ch, tok))
+					}
+				}
 			}
 		}
 		zipfuzzExec(c, "zipfuzz garbage:17 "+tok)
